@@ -1,12 +1,14 @@
 """C18  Progress callbacks give a complete, well-ordered account.  Engine csim with the virtual clock (DESIGN.md 4, C18)."""
+import contextlib
 import os
+import shutil
 
 from props import rsess
 from props.c12 import _recipe_names
-from simkit import gen, rw
+from simkit import driver, gen, rw, tree
 from simkit.device import SimFS, SimRaw
 from simkit.prng import Rng
-from simkit.sched import Deadlock, Scheduler, SchedTime, SimKill, make_queue_module, make_thread_class
+from simkit.sched import Deadlock, FsYield, Scheduler, SchedTime, SimKill, make_queue_module, make_thread_class
 from simkit.seams import Seams, digest_of, import_py7zr
 
 PROPERTY = "C18"
@@ -56,7 +58,9 @@ def gen_case(rng: Rng, i: int, tier: str):
             "clock_jump": r.pick([0.0, 0.3, 1.5]), "scheds": scheds,
             # what else the callback object is: a plain object, a progress tracker that is also a sized collection of the
             # members finished so far (empty, hence falsy, when extraction starts), or an object whose truth value is False
-            "cb_shape": rng.sub("shape").wpick([(6, "plain"), (2, "sized"), (1, "falsy")])}
+            "cb_shape": rng.sub("shape").wpick([(6, "plain"), (2, "sized"), (1, "falsy")]),
+            # where the members go: a caller-supplied writer factory, or a directory (the only way links are re-created)
+            "sink": rng.sub("sink").wpick([(4, "factory"), (1, "path")])}
 
 
 def _one(py7zr, built, case, strat, res):
@@ -122,16 +126,25 @@ def _one(py7zr, built, case, strat, res):
     fac = F()
     extra = [(P, "Thread", make_thread_class(sched)), (P, "queue", make_queue_module(sched)), (P, "time", SchedTime(sched, adv))]
     out = {"extract_error": None, "close_error": None, "dead": None, "queued_at_close": 0}
-    with Seams(fs=fs, extra=extra):
+    outdir = None
+    sinkkw = {"factory": fac}
+    fsy = contextlib.nullcontext()
+    if case.get("sink") == "path":
+        outdir = os.path.join(driver.worker_scratch(), "c18-out")
+        shutil.rmtree(outdir, ignore_errors=True)
+        os.makedirs(outdir)
+        sinkkw = {"path": outdir}
+        fsy = FsYield(sched, outdir)
+    with Seams(fs=fs, extra=extra), fsy:
         try:
             target = rsess.READ_PATH if case["open"] == "path" else SimRaw(fs.get(rsess.READ_PATH), readable=True, anonymous=case["open"] == "anon")
             z = py7zr.SevenZipFile(target, "r", password=built.password)
             try:
                 try:
                     if case["call"]["op"] == "extractall":
-                        z.extractall(factory=fac, callback=Rec())
+                        z.extractall(callback=Rec(), **sinkkw)
                     else:
-                        z.extract(targets=list(case["call"]["targets"]), recursive=case["call"]["recursive"], factory=fac, callback=Rec())
+                        z.extract(targets=list(case["call"]["targets"]), recursive=case["call"]["recursive"], callback=Rec(), **sinkkw)
                 except (SimKill, Deadlock):
                     raise
                 except Exception as e:
@@ -154,7 +167,21 @@ def _one(py7zr, built, case, strat, res):
         finally:
             sched.shutdown()
     out["hist"] = hist
-    out["products"] = fac.result()
+    if outdir is not None:
+        # what landed on disk: file bytes, and for links the text that was decoded for them
+        prods = {}
+        try:
+            for k, (kind, payload) in rsess.snapshot_tree(outdir).items():
+                if kind == "file":
+                    prods[k] = payload
+                elif kind == "link":
+                    prods[k] = payload.encode("utf-8")
+        finally:
+            tree.make_removable(outdir)
+            shutil.rmtree(outdir, ignore_errors=True)
+        out["products"] = prods
+    else:
+        out["products"] = fac.result()
     out["sched"] = sched
     return out
 
@@ -234,7 +261,7 @@ def run_case(case):
         backlog_s = o["queued_at_close"] * case["handler_ms"] / 1000.0
         bclass = "B" if backlog_s >= 0.95 else "A"
         cls = {"open": case["open"], "multi": built.nfolders > 1, "call": case["call"]["op"], "handler_ms": case["handler_ms"], "backlog_class": bclass,
-               "cb_shape": case.get("cb_shape", "plain")}
+               "cb_shape": case.get("cb_shape", "plain"), "sink": case.get("sink", "factory")}
         cls.update(gen.dep_flags([s.get("chain") for s in case["archive"]["sessions"]], None, None))
         if o["dead"] is not None:
             res["violations"].append({"fp": {"oracle": "deadlock", "site": "scheduler", "class": cls}, "detail": "%s (strategy %r)" % (o["dead"], strat)})
